@@ -392,12 +392,12 @@ func main() {
 		dg []byte
 	}
 	hits := make([][]hit, 64)
-	var nr, ns atomic.Int64
+	var nr, ns, nz atomic.Int64
 	mc.Par(64, func(w int) {
 		d := keys[w%3]
 		sk := lib.MkPriv(d)
 		for i := w; i < limit; i += 64 {
-			if nr.Load() >= 3 && ns.Load() >= 3 {
+			if nr.Load() >= 3 && ns.Load() >= 3 && nz.Load() >= 4 {
 				return
 			}
 			dg := sha(fmt.Sprintf("short-%d", i))
@@ -406,6 +406,20 @@ func main() {
 				continue
 			}
 			rb, sb := r.Bytes(), sv.Bytes()
+			// ... and signatures whose verification / recovery multiplies by a scalar (u2 = r/s, resp. s/r) whose two
+			// endomorphism halves (reference split) share a zero trailing byte: a 2^-16 event that a windowed multiply
+			// with special handling of all-zero positions gets wrong; found, not forced
+			if nz.Load() < 4 {
+				rv, svv := ref.OS2IP(rb), ref.OS2IP(sb)
+				for _, u := range []*big.Int{ref.ZnMul(rv, ref.ZnInv(svv)), ref.ZnMul(svv, ref.ZnInv(rv))} {
+					k1, k2 := mc.GLVRefSplit(u)
+					if k1.Sign() != 0 && k2.Sign() != 0 && new(big.Int).And(new(big.Int).Abs(k1), big.NewInt(255)).Sign() == 0 && new(big.Int).And(new(big.Int).Abs(k2), big.NewInt(255)).Sign() == 0 {
+						nz.Add(1)
+						hits[w] = append(hits[w], hit{d, dg})
+						break
+					}
+				}
+			}
 			if rb[0] == 0 && rb[1] == 0 {
 				nr.Add(1)
 				hits[w] = append(hits[w], hit{d, dg})
@@ -429,6 +443,7 @@ func main() {
 	}
 	R.Class("signed/r with >= 2 leading zero bytes", nr.Load())
 	R.Class("signed/s with >= 2 leading zero bytes", ns.Load())
+	R.Class("signed/verifier or recovery scalar whose endomorphism halves share a zero trailing byte", nz.Load())
 	R.Bound("short_integer_search_limit", limit)
 	if nr.Load() == 0 && ns.Load() == 0 {
 		R.Cap(fmt.Sprintf("no signature with a short r or s among the first %d RFC 6979 signatures searched", limit))
